@@ -310,6 +310,25 @@ pub fn run(ctx: &Ctx) -> Finish {
             }
         });
     }
+    // one large instance (150 variables x 80 dense constraints with varied coefficients: several hundred KB
+    // of text, far beyond any internal buffer of the compressor): nothing may be lost at the end of the file
+    ctx.seq(|l| {
+        let nv = 150u64;
+        let co = |i: u64, j: u64| (((i * 7919 + j * 104729) % 9973) as f64 - 4986.0) / 8.0;
+        let vars: Vec<VarRep> = (0..nv).map(|i| VarRep::new(i, if i % 3 == 0 { KIND_INTEGER } else { KIND_CONTINUOUS }, Some((-(i as f64) - 0.5, (i * 2) as f64 + 1.0)))).collect();
+        let cons: Vec<ConRep> = (0..80u64)
+            .map(|j| ConRep::new(j * 3 + 1, if j % 2 == 0 { LE_ZERO } else { EQ_ZERO }, Some(FnRep::Lin { terms: (0..nv).map(|i| (i, co(i, j + 1))).filter(|t| t.1 != 0.0).collect(), c: co(j, 200) })))
+            .collect();
+        let inst = InstRep {
+            sense: SENSE_MAX,
+            objective: Some(FnRep::Lin { terms: (0..nv).map(|i| (i, co(i, 0))).filter(|t| t.1 != 0.0).collect(), c: 2.5 }),
+            vars,
+            constraints: cons,
+            ..Default::default()
+        };
+        l.states += 1;
+        check_case(l, &Case { inst, nonlinear: String::new() });
+    });
     // nonlinear objective / constraint must be refused with an error naming the offender
     ctx.seq(|l| {
         let nl: Vec<FnRep> = vec![
@@ -331,7 +350,7 @@ pub fn run(ctx: &Ctx) -> Finish {
     });
     Finish {
         level: "model_checking",
-        rule: "every linear instance of the product: 1..3 used variables (ids {4,9,1}, rotated list order, plus an unused variable with the largest id) each over 28 kind x bound specs (continuous/integer x {absent,[0,1],[-3,5],[2,inf),(-inf,4],(-inf,inf),[-5,-1],[0,0],[0,inf),[-3,0],(-inf,0],[1,1]}, binary x {absent,[0,1],[0,0],[1,1]}) x objective forms (absent, constant, linear +- constant) x constraint lists (0..2, = / <=, constant-only included, ids {40,3}) with function variants rotating over every message type able to hold a linear function, both senses, name present/absent; written with mps::write_file and read with mps::load_file; oracle: same sense, objective and constraints equal as polynomials under the same ids, same effective value domain for every used variable; nonlinear objective / constraint refused with an error naming the offender; non-trivial = non-empty problem".into(),
+        rule: "every linear instance of the product: 1..3 used variables (ids {4,9,1}, rotated list order, plus an unused variable with the largest id) each over 28 kind x bound specs (continuous/integer x {absent,[0,1],[-3,5],[2,inf),(-inf,4],(-inf,inf),[-5,-1],[0,0],[0,inf),[-3,0],(-inf,0],[1,1]}, binary x {absent,[0,1],[0,0],[1,1]}) x objective forms (absent, constant, linear +- constant) x constraint lists (0..2, = / <=, constant-only included, ids {40,3}) with function variants rotating over every message type able to hold a linear function, both senses, name present/absent; written with mps::write_file and read with mps::load_file; oracle: same sense, objective and constraints equal as polynomials under the same ids, same effective value domain for every used variable; one 150-variable x 80-constraint instance (several hundred KB of MPS text); nonlinear objective / constraint refused with an error naming the offender; non-trivial = non-empty problem".into(),
         bounds: json!({"variables_max": nv_max, "kind_bound_specs": specs.len(), "constraints_max": 2}),
         exhaustive: t,
     }
